@@ -99,7 +99,7 @@ func c15Query(out string, appendMode, interim bool) string {
 // c15AltQuery: the earlier runs against an outfile use this spelling, so that the query file they leave behind holds
 // a different text of exactly the same length as the judged run's.
 func c15AltQuery(q string) string {
-	for _, kw := range []string{"from ", "select ", "group by ", "limit ", "outfile ", "append ", "interval "} {
+	for _, kw := range []string{"from ", "select ", "group by ", "limit ", "outfile ", "interval "} // (not "append": only clause keywords are case-insensitive) {
 		q = strings.Replace(q, kw, strings.ToUpper(kw), 1)
 	}
 	return q
@@ -275,22 +275,22 @@ func c15(r *vlib.Run) int {
 		"runs. distinct = distinct (scenario, kill point); non-trivial = kill point at or after the first write to the outfile.")
 	r.Assume("a kill inside a single write(2) of a few bytes is not separately reachable; in append mode a torn last record is not judged")
 	scs := []c15Scenario{
-		{"final-only-3", 3, false, false, 0, 0, false, false},
-		{"final-only-1-over-existing", 1, false, false, 1, 0, false, false},
-		{"final-only-200", 200, false, false, 0, 0, false, false},
-		{"interim-3-over-existing", 3, false, true, 1, 0, false, false},
-		{"interim-200", 200, false, true, 0, 0, false, false},
-		{"append-first-3", 3, true, false, 0, 0, false, false},
-		{"append-second-3", 3, true, false, 1, 0, false, false},
-		{"append-third-interim-3", 3, true, true, 2, 0, false, false},
+		{Name: "final-only-3", Rows: 3},
+		{Name: "final-only-1-over-existing", Rows: 1, Existing: 1},
+		{Name: "final-only-200", Rows: 200},
+		{Name: "interim-3-over-existing", Rows: 3, Interim: true, Existing: 1},
+		{Name: "interim-200", Rows: 200, Interim: true},
+		{Name: "append-first-3", Rows: 3, Append: true},
+		{Name: "append-second-3", Rows: 3, Append: true, Existing: 1},
+		{Name: "append-third-interim-3", Rows: 3, Append: true, Interim: true, Existing: 2},
 	}
 	scs = append(scs, c15Scenario{Name: "final-only-3-other-filesystem", Rows: 3, OtherFS: true},
 		c15Scenario{Name: "interim-3-over-existing-other-filesystem", Rows: 3, Interim: true, Existing: 1, OtherFS: true})
 	scs = append(scs, c15Scenario{Name: "final-only-3-stale-tmp", Rows: 3, StaleTmp: true},
 		c15Scenario{Name: "interim-3-over-existing-stale-tmp", Rows: 3, Interim: true, Existing: 1, StaleTmp: true})
 	if r.Thorough() {
-		scs = append(scs, c15Scenario{"interim-200-over-existing", 200, false, true, 1, 0, false, false}, c15Scenario{"append-second-200", 200, true, false, 1, 0, false, false},
-			c15Scenario{"final-only-3-over-existing", 3, false, false, 1, 0, false, false}, c15Scenario{"append-first-interim-1", 1, true, true, 0, 0, false, false})
+		scs = append(scs, c15Scenario{Name: "interim-200-over-existing", Rows: 200, Interim: true, Existing: 1}, c15Scenario{Name: "append-second-200", Rows: 200, Append: true, Existing: 1},
+			c15Scenario{Name: "final-only-3-over-existing", Rows: 3, Existing: 1}, c15Scenario{Name: "append-first-interim-1", Rows: 1, Append: true, Interim: true})
 	}
 	maxPoints := r.N(40, 100000)
 	vlib.Parallel(len(scs), 8, func(si int) {
